@@ -64,7 +64,10 @@ def crossratio(
             raise NotConcurrent("The lines are not concurrent: " + str([a, b, c, d]))
 
         from_point = a.meet(b)
-        a, b, c, d = a.base_point, b.base_point, c.base_point, d.base_point
+        # the points of the lines on a transversal that does not pass through the vertex: the hyperplane with the
+        # (conjugated) coordinates of the vertex. The base points all coincide with the vertex if it lies on x = 0.
+        t = PlaneCollection.from_array(np.conj(from_point.array))
+        a, b, c, d = a.meet(t), b.meet(t), c.meet(t), d.meet(t)
 
     elif (
         isinstance(a, PlaneTensor)
